@@ -5,6 +5,7 @@ twice, client text cannot add or split header lines (response header NAMES are f
 own fixed vocabulary), and under every short-write script the peer receives the whole response."""
 from vlib import common as C, serve as S, reqgen as G, strict_http as H, servecheck as K
 
+DRIVERS = ['Serve']   # model driver files this check runs: scopes translator failures to the tables they (and the proofs) import
 TRUSTED = ['scripted transport: any non-empty prefix may be accepted per write call; flush is a separate call']
 ASSUMPTIONS = ['strict grammar oracle vlib/strict_http.py written independently of the serialiser']
 WITH_MODEL = True
